@@ -73,8 +73,10 @@ Vals(d, var) ==
        \cup {ObjV(<<OFld("k", v)>>) : v \in V} \cup {ObjV(<<OFld("k", IntV), OFld("type", v)>>) : v \in V}
 
 \* ------------------------------------------------------------------ string contents
-StrAlpha == {"a", " ", "DQ", "BS", "LF", "CR", "TAB", "BEL", "DEL", "U2", "U4", "U4NP", "BOM", "BKSP", "/", "u", "#"}
-DescAlpha == {"a", " ", "DQ", "BS", "LF", "CR", "TAB", "U2", "U4", "#"}
+\* "SI" = U+000F (its escape needs the hex digit f); "L72" = a run of 72 letters as one unit (descriptions
+\* longer than a line)
+StrAlpha == {"a", " ", "DQ", "BS", "LF", "CR", "TAB", "BEL", "SI", "DEL", "U2", "U4", "U4NP", "BOM", "BKSP", "/", "u", "#"}
+DescAlpha == {"a", " ", "DQ", "BS", "LF", "CR", "TAB", "U2", "U4", "#", "L72"}
 RECURSIVE Strings(_, _)
 Strings(A, n) == IF n = 0 THEN {<<>>} ELSE LET S == Strings(A, n - 1) IN S \cup {Append(s, x) : s \in {y \in S : Len(y) = n - 1}, x \in A}
 
